@@ -1,6 +1,7 @@
 package main
 
 import (
+	"os"
 	"bufio"
 	"fmt"
 	"net/http"
@@ -223,6 +224,7 @@ func c05(c *ctx) {
 	}
 	w.stats("cycle-end")
 	c05up4(c)
+	c05TeardownFault(c)
 }
 
 // c05up4: on the UP4 datapath a session also holds counter cells, meter cells, references on a tunnel peer and on
@@ -292,6 +294,64 @@ func c05up4(c *ctx) {
 				w.assoc(0)
 			}
 		}
+		w.close()
+	}
+}
+
+// c05TeardownFault: the association ends while the P4Runtime server refuses every write. The switch cannot be cleaned (that is the
+// fault), but what the agent itself holds for the sessions - UE addresses, TEIDs, the gauge - must be returned all the same: the
+// association and its store are gone, nothing could ever return them later.
+func c05TeardownFault(c *ctx) {
+	for _, how := range []string{"release", "timeout"} {
+		o := sysh.Opts{P4: true, UEAlloc: true, Pool: "10.62.0.0/28", ReadTimeout: 600}
+		if how == "timeout" {
+			o.ReadTimeout = 1
+		}
+		w, err := newWorld(c, o)
+		if err != nil {
+			panic(err)
+		}
+		w.quiet = true
+		if !w.start() {
+			w.close()
+			return
+		}
+		w.assoc(0)
+		n := 0
+		for k := 0; k < 8 && n < 3; k++ {
+			pdrs, fars, qers := w.genSession(2) // UP-chosen F-TEID, UP-allocated UE address
+			for i := range pdrs {
+				pdrs[i].Prec = uint32(100 + i)
+			}
+			w.nextCP++
+			h, ob := w.est(0, w.nodes[0], w.nextCP, pdrs, fars, qers, "c05-teardown-fault")
+			if h != nil {
+				n++
+			} else if os.Getenv("VERIF_DEBUG") != "" {
+				fmt.Fprintf(os.Stderr, "tdfault est refused: %+v\n", ob)
+			}
+		}
+		before := w.s.Stats()
+		w.s.P4.Fault = func(int, []sysh.P4Up) (string, int, int) { return "rpc", -1, 0 }
+		if how == "release" {
+			w.release(0)
+		} else {
+			time.Sleep(1500 * time.Millisecond)
+		}
+		var st map[string]int
+		for i := 0; i < 100; i++ { // Shutdown runs asynchronously
+			time.Sleep(20 * time.Millisecond)
+			st = w.s.Stats()
+			if st != nil && st["conns"] == 0 && st["pool_held"] == 0 && st["teid_used"] == 0 {
+				break
+			}
+		}
+		w.s.P4.Fault = nil
+		if st == nil || before == nil {
+			st, before = map[string]int{"pool_held": -1, "teid_used": -1, "conns": -1}, map[string]int{}
+		}
+		c.t.Case("c05/teardown-fault/"+how, n > 0, "tdfault %s %d %d %d => %d %d %d %d %d", how, n, before["pool_held"], before["teid_used"],
+			b01(!w.s.Exited()), st["conns"], st["pool_held"], st["teid_used"], w.gauge())
 		w.close()
 	}
 }
